@@ -11,7 +11,7 @@ def run(tier, seed, update_lock=False):
     # (a)+(b): ghost-initialisation and frame obligations of functions under contract
     from contracts import trim as CTR, tpt as CTP, builders as CBU
     units = [K.util_unit(), Unit('trim[renumber]', CTR.registry(True)), Unit('trim[in-place]', CTR.registry(False)),
-             Unit('tpt-flux[dense]', CTP.registry(), keys=[CTP.F + '_get_data_from_tprob', CTP.F + 'reactive_fluxes', CTP.F + 'net_fluxes']),
+             Unit('tpt-flux[dense]', CTP.registry(), keys=[CTP.F + '_get_data_from_tprob', CTP.F + 'reactive_fluxes', CTP.F + 'net_fluxes', CTP.F + 'reactive_populations']),
              Unit('builders-dense', CBU.registry('scalar', True), keys=[CBU.F + 'transpose', CBU.F + '_row_normalize', CBU.F + '_apply_prior_counts', CBU.F + 'normalize'])]
     from contracts import ra_index as RI, tpt_path as TPP
     units += [Unit('ra-index', RI.registry()), Unit('ra-2d-slice[]', RI.registry_iis(True, True, True, exclude={'ra-2d-slice-empty-row'})),
